@@ -10,9 +10,15 @@ def main():
     mode, inp, out, tmpdir, efd, cfd, gated = sys.argv[1], sys.argv[2], sys.argv[3], sys.argv[4], int(sys.argv[5]), int(sys.argv[6]), sys.argv[7] == "1"
     tmpdir = os.path.realpath(tmpdir)
 
+    finished = [False]
+
     def emit(ev, name, rel=None):
+        if finished[0]:
+            return              # the run is over (create_db returned): whatever the interpreter does on its way out is not scheduled any more
         os.write(efd, (json.dumps({"ev": ev, "name": name, "path": rel or name}) + "\n").encode())
-        if gated and ev != "done":
+        if ev == "done":
+            finished[0] = True
+        elif gated:
             os.read(cfd, 1)
 
     def entry(path):
